@@ -214,6 +214,37 @@ def main(argv):
         lines.append(f"pooled cfg={mx or 2 ** 31},{round(idle * SCALE)} evs={','.join(model_evs) or '-'}")
         metas.append(({"cfg": cfg, "calls": [(it[0], it[1]["op"], repr(it[2]), (it[3] if len(it) > 3 else 0)) for it in seq], "events": model_evs},
                       f"ok obs=[{','.join(obs)}] free=[{free}] closed=[{','.join(map(str, closed_order))}] out=0"))
+    # ---- connection set-up options of the pooled clients (no_delay, TLS): a fault while a new socket is being prepared - before it is connected -
+    #      must not leave that socket open (the pool's accounting never sees it: only the socket ledger does) ------------------------------------
+    from fakesock import mk_exc as _mk_exc
+    for extra_kw, api in (({"no_delay": True}, "setsockopt"), ({"tls": True}, "wrap_socket"), ({"no_delay": True, "tls": True}, "wrap_socket"),
+                          ({"no_delay": True, "tls": True}, "setsockopt")):
+        for ign in (False, True):
+            for mx in (1, None):
+                for call in (ALPHA[0], ALPHA[1], ALPHA[2]):
+                    CLOCK[0] = 1000.0
+                    S = Scripted(rng)
+                    kw = {"no_delay": bool(extra_kw.get("no_delay"))}
+                    if extra_kw.get("tls"):
+                        kw["tls_context"] = S.sm.tls_context()
+                    pc = PooledClient(("h", 1), socket_module=S.sm, max_pool_size=mx, pool_idle_timeout=0, ignore_exc=ign, default_noreply=False, **kw)
+                    case = {"options": extra_kw, "fault_at": api, "ignore_exc": ign, "max_pool_size": mx, "call": call["op"]}
+                    ctx.case(("setup-fault", repr(extra_kw), api, ign, mx, call["op"]))
+                    ctx.count("connection-setup-faults")
+                    S.begin_call(0, {})
+                    S.world.arm({(api, 0): _mk_exc("oserror")})
+                    r1 = run_call(pc, dict(call))
+                    S.world.arm({})
+                    S.begin_call(1, {})
+                    r2 = run_call(pc, {"op": "set", "k": "z", "v": b"1", "nr": False})
+                    r3 = run_call(pc, {"op": "get", "k": "z"})
+                    pooled = {id(o.sock) for o in pc.client_pool.free if o.sock is not None}
+                    raw_of_pooled = {c_.id for c_ in S.world.conns if getattr(c_, "wrapped_by", None) is not None and id(S.world.conns[c_.wrapped_by]) in pooled}
+                    leaked = [c_.id for c_ in S.world.conns if not c_.closed and id(c_) not in pooled and c_.id not in raw_of_pooled]
+                    if leaked or len(pc.client_pool.used) != 0 or (r2, r3) != ("True", "b:31"):
+                        ctx.violation("after a fault while a new socket was being set up, a socket stays open outside the pool / the pool does not recover",
+                                      dict(case, first_call=r1[:40], open_sockets_outside_the_pool=leaked, checked_out=len(pc.client_pool.used), next_calls=[r2, r3]),
+                                      tags=["leak", "setup-fault"])
     # ---- several idle connections (built by a call issued from inside another call - the same as two overlapping callers), then calls one at a
     #      time: whatever order the pool keeps them in, after a checkout no connection that had idled out by then may still be open --------------
     for idle in (10, 0.5):
